@@ -207,6 +207,10 @@ pub struct World {
 	pub swept_txs: Vec<(usize, Transaction)>,
 	/// when set, a node that intercepts an HTLC forwards it on with this much skimmed off (LSP-style)
 	pub intercept_skim_msat: Option<u64>,
+	/// forwarder whose outgoing (last) hop is addressed through its intercept scid in payments sent with
+	/// `send_payment_ext`; the HTLCIntercepted handler then forwards over the channel the route named
+	pub intercept_via: Option<usize>,
+	pub intercept_plan: BTreeMap<PaymentHash, (ChannelId, usize)>,
 	pub bogus_reestablish: BTreeMap<(usize, usize), u32>,
 	/// per node: manager writes suspended (the durable manager lags behind)
 	pub manager_write_held: Vec<bool>,
@@ -299,6 +303,8 @@ impl World {
 			funding_txs: Vec::new(),
 			swept_txs: Vec::new(),
 			intercept_skim_msat: None,
+			intercept_via: None,
+			intercept_plan: BTreeMap::new(),
 			bogus_reestablish: BTreeMap::new(),
 			manager_write_held: vec![false; n],
 			offline: vec![false; n],
@@ -626,6 +632,13 @@ impl World {
 				Event::OpenChannelRequest { temporary_channel_id, counterparty_node_id, .. } => {
 					let r = self.nodes[n].cm.accept_inbound_channel(&temporary_channel_id, &counterparty_node_id, 7, None);
 					self.obs.push(Obs::Api { node: n, what: "accept_inbound_channel".into(), ok: r.is_ok(), detail: format!("{:?}", r) });
+				},
+				Event::HTLCIntercepted { intercept_id, expected_outbound_amount_msat, payment_hash, .. } if self.intercept_plan.contains_key(&payment_hash) => {
+					let (cid, next) = self.intercept_plan[&payment_hash];
+					let next_id = self.nodes[next].id;
+					let skim = self.intercept_skim_msat.unwrap_or(0);
+					let r = self.nodes[n].cm.forward_intercepted_htlc(intercept_id, &cid, next_id, expected_outbound_amount_msat - skim);
+					self.obs.push(Obs::Api { node: n, what: "forward_intercepted_htlc".into(), ok: r.is_ok(), detail: format!("{:?}", r) });
 				},
 				Event::HTLCIntercepted { intercept_id, expected_outbound_amount_msat, .. } => {
 					if let Some(skim) = self.intercept_skim_msat {
@@ -1142,10 +1155,15 @@ impl World {
 		for (i, (node, cid)) in hops.iter().enumerate() {
 			let ch = self.chan(prev, cid).expect("route channel");
 			let last = i + 1 == hops.len();
+			let mut scid = ch.short_channel_id.expect("scid");
+			if last && i > 0 && self.intercept_via == Some(prev) {
+				scid = self.nodes[prev].cm.get_intercept_scid();
+				self.intercept_plan.insert(hash, (*cid, *node));
+			}
 			route_hops.push(RouteHop {
 				pubkey: self.nodes[*node].id,
 				node_features: self.nodes[*node].cm.node_features(),
-				short_channel_id: ch.short_channel_id.expect("scid"),
+				short_channel_id: scid,
 				channel_features: self.nodes[*node].cm.channel_features(),
 				fee_msat: if last { amount_msat } else { hop_fee_msat },
 				cltv_expiry_delta: if last { 100 + final_cltv_extra } else { 100 },
